@@ -188,6 +188,35 @@ def main():
             record("make_jvp-independent-stale-value", desc, not has_box(t) and onp.shape(t) == () and t == 0, repr(t))
         except Exception as ex:
             record("independent-stale-raised", desc, False, repr(ex))
+    # ---- arguments whose rule is registered as None (no derivative flows): an exact zero of THAT ARGUMENT's space,
+    #      whatever the space of the output ----
+    from autograd.extend import primitive as _prim, defvjp as _defvjp
+
+    @_prim
+    def gate(c, a):
+        return onp.where(onp.asarray(c) > 0, 1.0, 2.0) * a
+    _defvjp(gate, None, lambda ans, c, a: lambda g: onp.sum(onp.reshape(g * onp.where(onp.asarray(c) > 0, 1.0, 2.0), (-1,) + onp.shape(a)), axis=0)
+            if onp.shape(g) != onp.shape(a) else g * onp.where(onp.asarray(c) > 0, 1.0, 2.0))
+    big34 = onp.arange(12.0).reshape(3, 4) + 1.0
+    none_cases = [
+        ("where: condition (3,1) against (3,4) branches", lambda c: anp.sum(anp.where(c, big34, -big34)), onp.array([[1.0], [0.0], [2.0]])),
+        ("where: condition (4,) against (3,4) branches", lambda c: anp.sum(anp.where(c, big34, 2.0)), onp.array([1.0, 0.0, 0.0, 3.0])),
+        ("where: scalar condition", lambda c: anp.sum(anp.where(c, big34, -big34)), 1.0),
+        ("where: real condition, complex branches", lambda c: anp.sum(anp.real(anp.where(c, big34 * (1 + 2j), 1j))), onp.array([1.0, 0.0, 0.0, 3.0])),
+        ("user primitive, None rule, argument (3,1) output (3,4)", lambda c: anp.sum(gate(c, big34)), onp.array([[1.0], [-1.0], [2.0]])),
+        ("user primitive, None rule, scalar argument", lambda c: anp.sum(gate(c, big34)), 0.5),
+    ]
+    for name, fn, c0 in none_cases:
+        try:
+            z = grad(fn)(c0)
+            record("none-rule-zero", name, same_zero(z, c0), repr(z))
+            z2 = make_vjp(fn)(c0)[0](1.0)
+            record("none-rule-zero-vjp", name, same_zero(z2, c0), repr(z2))
+            # ... and next to a contribution that does flow
+            z3 = grad(lambda c: fn(c) + anp.sum(c * 3.0))(c0)
+            record("none-rule-plus-flow", name, onp.shape(z3) == onp.shape(c0) and bool(onp.all(onp.asarray(z3) == 3.0)), repr(z3))
+        except Exception as ex:
+            record("none-rule-raised", name, False, repr(ex))
     # ---- the registered non-differentiable functions ----
     # the non-differentiable function set is part of the property, not read off the implementation: the pinned
     # tree's list, plus whatever the current tree adds to it
